@@ -19,7 +19,7 @@ for d in sorted(glob.glob('/verif/seeded/C*-*'), key=lambda p:(p.split('/')[-1].
     silent=' '.join(k for k,v in res.items() if v==0)
     rows.append((name,needs,own,fired,silent))
 out=['# Seeded changes (written by independent sub-agents from the property text alone) vs. the quick checks','',
-     'Regenerated %s from seeded/<id>/detected.txt (quick tier, seed 1).  "own" = the check of the property the change was written against.  <ID>-1..3: first round; <ID>-4..6: second round (changes that need a conjunction of uncommon circumstances).'%datetime.datetime.utcnow().strftime('%Y-%m-%dT%H:%MZ'),'',
+     'Regenerated %s from seeded/<id>/detected.txt (quick tier, seed 1).  "own" = the check of the property the change was written against.  <ID>-1..3: first round; <ID>-4..6: second round (changes that need a conjunction of uncommon circumstances); <ID>-7..9 (C03 C08 C12 C13 C15 only): third round (concurrency defects that need a deep interleaving: three threads or three context switches).'%datetime.datetime.utcnow().strftime('%Y-%m-%dT%H:%MZ'),'',
      '%d changes; own check fires on %d; caught by at least one check: %d.'%(len(rows),sum(1 for r in rows if r[2]=='FIRES'),sum(1 for r in rows if r[2]=='FIRES' or r[3])),'',
      '| seeded change | what it needs to manifest | own check | other checks that fire | silent |','|---|---|---|---|---|']
 for r in rows: out.append('| %s | %s | %s | %s | %s |'%r)
